@@ -24,12 +24,19 @@ fn gen_path(rng: &mut Rng, w: i32, h: i32, far: bool) -> Path {
     let (wf, hf) = (w as f64, h as f64);
     let mut pb = PathBuilder::new();
     let nsub = 1 + rng.below(2);
-    let mut c = |rng: &mut Rng, s: f64| -> f32 {
-        if far && rng.chance(0.3) {
+    // one pool of values for x and y: now and then a coordinate repeats an earlier one exactly (a control
+    // point level with an end point, vertical and horizontal tangents, coincident points)
+    let pool: std::cell::RefCell<Vec<f32>> = std::cell::RefCell::new(Vec::new());
+    let c = |rng: &mut Rng, s: f64| -> f32 {
+        let v = if !pool.borrow().is_empty() && rng.chance(0.12) {
+            *rng.pick(&pool.borrow()[..])
+        } else if far && rng.chance(0.3) {
             rng.range(-3500., 3500.) as f32
         } else {
             coord(rng, s)
-        }
+        };
+        pool.borrow_mut().push(v);
+        v
     };
     let mut first = true;
     let mut last: Option<(f32, f32)> = None;
@@ -68,7 +75,8 @@ fn gen_path(rng: &mut Rng, w: i32, h: i32, far: bool) -> Path {
                 }
                 8 => {
                     let r = rng.range(0.5, wf.min(hf).max(2.)) as f32;
-                    pb.arc(rng.range(0., wf) as f32, rng.range(0., hf) as f32, r, rng.range(-7., 7.) as f32, rng.range(-7., 7.) as f32);
+                    let sweep = if rng.chance(0.3) { *rng.pick(&[6.2831855f32, -6.2831855, 7.0, -7.0, 9.424778, -9.424778]) } else { rng.range(-7., 7.) as f32 };
+                    pb.arc(rng.range(0., wf) as f32, rng.range(0., hf) as f32, r, rng.range(-7., 7.) as f32, sweep);
                     last = None;
                 }
                 _ => {
@@ -117,7 +125,11 @@ pub struct FillCheck {
 /// compares coverage bytes (255 expected inside, 0 outside) with the winding oracle
 pub fn check_fill(cov: &[u8], w: i32, h: i32, path: &Path, t: &Transform, margin: f64) -> FillCheck {
     let subs = transform_subs(&subpaths(path, 256), &T64::from(t));
-    let evenodd = path.winding == Winding::EvenOdd;
+    check_fill_subs(cov, w, h, &subs, path.winding == Winding::EvenOdd, margin)
+}
+
+/// the same against an outline given directly in device space
+pub fn check_fill_subs(cov: &[u8], w: i32, h: i32, subs: &[Sub], evenodd: bool, margin: f64) -> FillCheck {
     let r = margin + std::f64::consts::FRAC_1_SQRT_2 + 1e-3;
     let mut res = FillCheck { inside: 0, outside: 0, skipped: 0, violation: None };
     for y in 0..h {
@@ -194,6 +206,96 @@ pub fn run(ctx: &Ctx) -> Outcome {
         }
         co
     });
-    out.assume("arcs are evaluated through the quadratic control points PathBuilder::arc emitted (their own geometry is C20's subject)");
+    // shapes made of arcs, judged against the circles themselves (not against what PathBuilder::arc emitted):
+    // discs, pies, rings whose hole depends on the direction of each circle, full turns and more of either sign
+    run_cases(ctx, &mut out, SubSpec { name: "arc_shapes_against_true_circles", cases: ctx.n(6_000, 300_000), exhaustive: false, max_secs: secs }, |i, want, st| {
+        let mut rng = ctx.rng("arc_shapes_against_true_circles", i);
+        let w = rng.int(12, 48) as i32;
+        let h = rng.int(12, 48) as i32;
+        let (wf, hf) = (w as f64, h as f64);
+        let t = if rng.chance(0.5) { Transform::identity() } else { gen_transform(&mut rng, w, h) };
+        let mut pb = PathBuilder::new();
+        let mut subs: Vec<Sub> = Vec::new();
+        let mut calls = String::new();
+        let mut rmax: f64 = 0.;
+        let concentric = rng.chance(0.5);
+        let (ccx, ccy) = (rng.range(wf * 0.3, wf * 0.7) as f32, rng.range(hf * 0.3, hf * 0.7) as f32);
+        let nsub = rng.int(1, 3);
+        for k in 0..nsub {
+            let (cx, cy) = if concentric { (ccx, ccy) } else { (rng.range(0., wf) as f32, rng.range(0., hf) as f32) };
+            let r = if concentric { (wf.min(hf) * 0.45 / (k as f64 + 1.)) as f32 } else { rng.range(2., wf.min(hf) * 0.5) as f32 };
+            rmax = rmax.max(r as f64);
+            let start = *rng.pick(&[0.0f32, 1.0, -2.5, 3.1415927, 7.5, -0.3]);
+            let sweep = match rng.below(4) {
+                0 | 1 => *rng.pick(&[6.2831855f32, -6.2831855, 7.0, -7.0, 12.566371, -12.566371, 100., -100.]),
+                _ => rng.range(-6.2, 6.2) as f32,
+            };
+            let mut pts: Vec<P> = Vec::new();
+            // the subpath starts where the arc starts, or somewhere else (then a line leads to the arc's start)
+            if rng.chance(0.4) {
+                let (mx, my) = (rng.range(0., wf) as f32, rng.range(0., hf) as f32);
+                pb.move_to(mx, my);
+                pts.push(P::new(mx as f64, my as f64));
+                calls += &format!("move_to({},{}) ", mx, my);
+            } else {
+                let (sx, sy) = (cx as f64 + r as f64 * (start as f64).cos(), cy as f64 + r as f64 * (start as f64).sin());
+                pb.move_to(sx as f32, sy as f32);
+                pts.push(P::new(sx as f32 as f64, sy as f32 as f64));
+                calls += &format!("move_to({},{}) ", sx as f32, sy as f32);
+            }
+            pb.arc(cx, cy, r, start, sweep);
+            calls += &format!("arc({},{},{},{},{}) close ", cx, cy, r, start, sweep);
+            let sw = (sweep as f64).max(-2. * std::f64::consts::PI).min(2. * std::f64::consts::PI);
+            let steps = 240;
+            for j in 0..=steps {
+                let a = start as f64 + sw * j as f64 / steps as f64;
+                pts.push(P::new(cx as f64 + r as f64 * a.cos(), cy as f64 + r as f64 * a.sin()));
+            }
+            pb.close();
+            subs.push(Sub { pts, closed: true });
+        }
+        let mut path = pb.finish();
+        let evenodd = rng.chance(0.3);
+        if evenodd {
+            path.winding = Winding::EvenOdd;
+        }
+        let aa = rng.chance(0.75);
+        let as_clip = rng.chance(0.2);
+        let mut dt = DrawTarget::new(w, h);
+        dt.set_transform(&t);
+        let cov: Vec<u8> = if as_clip {
+            dt.push_clip(&path);
+            let c = effective_clip(&mut dt, w, h);
+            dt.pop_clip();
+            c
+        } else {
+            dt.fill(&path, &Source::Solid(WHITE), &opts(BlendMode::SrcOver, 1., aa));
+            dt.get_data().iter().map(|p| (p >> 24) as u8).collect()
+        };
+        let t64 = T64::from(&t);
+        let dsubs = transform_subs(&subs, &t64);
+        // the emitted curve may be off the circle by 0.5% of the radius (C20)
+        let res = check_fill_subs(&cov, w, h, &dsubs, evenodd, 1.0 + 0.006 * rmax * t64.max_scale());
+        st.add("arc_px_inside_asserted", res.inside);
+        st.add("arc_px_outside_asserted", res.outside);
+        let mut co = CaseOut::default();
+        co.hash = crate::prng::hash_str(&format!("{}{:?}{}{}{}", calls, t, aa, as_clip, evenodd));
+        co.nontrivial = res.inside > 0 && res.outside > 0;
+        if let Some(v) = res.violation {
+            co.viol("C08", format!("{} of arcs: {}", if as_clip { "push_clip" } else { "fill" }, v));
+        }
+        if want || !co.violations.is_empty() {
+            let mut d = J::obj();
+            d.set("surface", J::s(&format!("{}x{}", w, h)));
+            d.set("calls", J::s(&calls));
+            d.set("winding", J::s(if evenodd { "EvenOdd" } else { "NonZero" }));
+            d.set("transform", J::s(&transform_str(&t)));
+            d.set("antialias", J::Bool(aa));
+            d.set("used_as_clip_path", J::Bool(as_clip));
+            co.desc = Some(d);
+        }
+        co
+    });
+    out.assume("in the mixed random paths arcs are evaluated through the quadratic control points PathBuilder::arc emitted (their own geometry is C20's subject); the arc_shapes workload judges arcs against the true circles");
     out
 }
